@@ -26,6 +26,20 @@ pub fn zinc_roundtrip(m: &MVal, bits: u64) -> Result<String, RtFail> {
         Ok(Err(e)) => return Err(RtFail { class: "encode-err".into(), detail: format!("encoder returned error: {e}"), text: None }),
         Ok(Ok(t)) => t,
     };
+    // the same encoding streamed into a sink that takes a few bytes per write(): the text must not depend on the sink
+    if text.len() < 4096 {
+        let chunk = 1 + (bits as usize ^ text.len()) % 5;
+        let streamed = crate::util::catch(|| {
+            let mut w = crate::readers::ShortWriter::new(chunk);
+            v.to_zinc(&mut w).map(|_| w.out)
+        });
+        match streamed {
+            Ok(Ok(bytes)) if bytes == text.as_bytes() => {}
+            Ok(Ok(bytes)) => return Err(RtFail { class: "writer-text-differs".into(), detail: format!("to_zinc into a writer taking {chunk} byte(s) per write gave {:?}", truncate(&String::from_utf8_lossy(&bytes), 300)), text: Some(text) }),
+            Ok(Err(e)) => return Err(RtFail { class: "writer-encode-err".into(), detail: format!("to_zinc into a short-write sink failed: {e}"), text: Some(text) }),
+            Err(p) => return Err(RtFail { class: panic_sig(&p), detail: format!("to_zinc into a short-write sink panicked: {}", p.msg), text: Some(text) }),
+        }
+    }
     let fuel = 64 * text.len() as u64 + 4096;
     let dec = with_fuel(fuel, || from_str(&text));
     let back = match dec.result {
